@@ -105,6 +105,7 @@ func c05(r *core.Run) {
 	r.Assumptions = []string{"encoding/json decodes member k into the field tagged k"}
 
 	r.Rule("M1", "field table: every field of the decoded payload struct is copied exactly once into one request field, each such field is returned by exactly one exported accessor, the map is injective; resource name/params/group/handler/listeners come from the routed Match and the subject; payload JSON keys agree with the client package's Request", 15)
+	r.Rule("M2", "payload decoding: the payload struct is filled by encoding/json.Unmarshal - which validates the whole input, unlike a streaming Decoder that stops after the first value - applied to the message's Data bytes, and its error edge replies with an error before dispatch ('payload not JSON' -> system.internalError)", 2)
 	r.Rule("D1", "exhaustive dispatch: the request-type constants the dispatcher switches on = the request types subscribe() subscribes to", 1)
 	r.Rule("D2", "method lookup: call and auth alike index the method map by the request's method, fall back to \"*\" on the nil edge, reply methodNotFound when still nil and call exactly that value; call.new prefers the New handler when set", 4)
 	r.Rule("D3", "method split agreement: the request types for which the message handler strips a trailing method token = the types for which subscribe appends a method wildcard", 1)
@@ -134,17 +135,97 @@ func c05(r *core.Run) {
 
 	// ---- M1 --------------------------------------------------------------
 	// decoded payload struct: the local passed to json.Unmarshal in proc
+	// (any encoding/json entry point counts as the anchor; M2 then demands that it is Unmarshal)
 	var payT types.Type
-	for _, c := range core.Calls(proc) {
-		if cal := c.Common().StaticCallee(); cal != nil && cal.String() == "encoding/json.Unmarshal" {
-			if al, ok := core.Strip(c.Common().Args[1]).(*ssa.Alloc); ok {
-				payT = al.Type().(*types.Pointer).Elem()
+	var decode ssa.CallInstruction
+	for _, f2 := range p.Helpers(proc) {
+		for _, c := range core.Calls(f2) {
+			cal := c.Common().StaticCallee()
+			if cal == nil || cal.Pkg == nil || cal.Pkg.Pkg.Path() != "encoding/json" {
+				continue
+			}
+			for _, a := range c.Common().Args {
+				v := core.Strip(a)
+				pt, isPtr := v.Type().(*types.Pointer)
+				if !isPtr {
+					continue
+				}
+				if _, isStruct := pt.Elem().Underlying().(*types.Struct); !isStruct {
+					continue
+				}
+				switch v.(type) {
+				case *ssa.Alloc, *ssa.Parameter:
+					payT = pt.Elem()
+					decode = c
+				}
 			}
 		}
 	}
 	if payT == nil {
-		r.Unres("M1", "payload-struct", "no json.Unmarshal into a local struct in "+core.FuncName(proc))
+		r.Unres("M1", "payload-struct", "no encoding/json decode into a local struct in "+core.FuncName(proc))
 		return
+	}
+	// ---- M2 --------------------------------------------------------------
+	{
+		cal := decode.Common().StaticCallee()
+		isUnm := cal.String() == "encoding/json.Unmarshal"
+		r.Check(isUnm, "M2", core.FuncName(decode.Parent()), "payload-decoded-by-json.Unmarshal", p.InstrPos(decode), "whole-input decode: trailing bytes or a second value make the payload invalid", "the payload is decoded with "+cal.String()+": a payload consisting of a valid JSON value followed by anything else is accepted and dispatched instead of being answered with system.internalError")
+		if isUnm {
+			src := decode.Common().Args[0]
+			if prm, ok := src.(*ssa.Parameter); ok {
+				// helper: take the argument at the call site(s)
+				for i, q := range prm.Parent().Params {
+					if q == prm {
+						for _, cs := range p.CallersOf(prm.Parent()) {
+							src = cs.Common().Args[i]
+						}
+					}
+				}
+			}
+			f, ok := core.LoadedField(src)
+			r.Check(ok && f.Name == "Data" && strings.HasSuffix(f.Struct, "Msg"), "M2", core.FuncName(decode.Parent()), "decodes-the-message-Data", p.InstrPos(decode), "the bytes decoded are the message's Data", "the payload struct is decoded from "+valDesc(src)+", not from the message's Data")
+			// the decode's error edge never reaches the dispatcher (an empty payload skips decoding)
+			okEdge := false
+			var site ssa.Instruction = decode
+			if decode.Parent() != proc {
+				if l := p.Lift(decode, proc); len(l) == 1 {
+					site = l[0]
+				}
+			}
+			sv, _ := site.(ssa.Value)
+			for _, blk := range proc.Blocks {
+				iff, ok := blk.Instrs[len(blk.Instrs)-1].(*ssa.If)
+				if !ok || sv == nil {
+					continue
+				}
+				ci := core.Cond(iff.Cond)
+				if ci.Kind != "nilcmp" || !(ci.X == sv || sameCellLoadOfCall(ci.X, site.(ssa.CallInstruction))) {
+					continue
+				}
+				errSucc := 0
+				if (ci.Op == token.EQL) != ci.Negate {
+					errSucc = 1
+				}
+				okEdge = true
+				for _, dc := range callsTo([]*ssa.Function{proc}, d) {
+					seen := map[*ssa.BasicBlock]bool{}
+					st := []*ssa.BasicBlock{blk.Succs[errSucc]}
+					for len(st) > 0 {
+						x := st[len(st)-1]
+						st = st[:len(st)-1]
+						if seen[x] {
+							continue
+						}
+						seen[x] = true
+						if x == dc.Block() {
+							okEdge = false
+						}
+						st = append(st, x.Succs...)
+					}
+				}
+			}
+			r.Check(okEdge, "M2", core.FuncName(proc), "dispatch-only-on-decode-success", p.InstrPos(site), "a payload that is not JSON never reaches a handler", "the dispatcher can be reached although decoding the payload failed")
+		}
 	}
 	payName := core.TypeName(payT)
 	pst := payT.Underlying().(*types.Struct)
@@ -524,35 +605,7 @@ func c05(r *core.Run) {
 	} else {
 		r.Unres("E1", "InternalError", "not found")
 	}
-	if fn := p.Func("ToError"); fn != nil {
-		hasAssert, hasInternal, other := false, false, ""
-		for _, ret := range core.Returns(fn) {
-			for _, lf := range valueLeaves(ret.Results[0], nil, 0) {
-				switch x := lf.V.(type) {
-				case *ssa.Extract:
-					if ta, ok := x.Tuple.(*ssa.TypeAssert); ok && x.Index == 0 && core.TypeName(ta.AssertedType) == "Error" && core.Strip(ta.X) == ssa.Value(fn.Params[0]) {
-						hasAssert = true
-					} else {
-						other = valDesc(x)
-					}
-				case *ssa.Alloc:
-					// InternalError's result when expanded: a fresh *Error
-					hasInternal = true
-				case *ssa.Call:
-					if c := x.Common().StaticCallee(); c != nil && c.Name() == "InternalError" {
-						hasInternal = true
-					} else {
-						other = "call:" + core.CalleeName(x)
-					}
-				default:
-					other = valDesc(lf.V)
-				}
-			}
-		}
-		r.Check(hasAssert && hasInternal && other == "", "E1", "ToError", "identity-on-*Error-else-InternalError", p.Pos(fn.Pos()), "returns the argument itself when its dynamic type is *Error (plain type assertion), InternalError(err) otherwise", "ToError does not map by a plain type assertion on its argument: "+other)
-	} else {
-		r.Unres("E1", "ToError", "not found")
-	}
+	toErrorRule(r, "E1")
 
 	// ---- E2 --------------------------------------------------------------
 	globals := byteGlobals(p, "")
@@ -672,4 +725,42 @@ func literalErrorCode(p *core.Prog, gname string) string {
 		return ""
 	}
 	return obj.Error.Code
+}
+
+// toErrorRule: ToError returns its argument when a plain type assertion says
+// it already is an *Error and InternalError(err) otherwise. Unwrapping
+// (errors.As) would dig an *Error out of a *json.MarshalerError or any %w
+// chain and send it verbatim.
+func toErrorRule(r *core.Run, rule string) {
+	p := r.P
+	fn := p.Func("ToError")
+	if fn == nil {
+		r.Unres(rule, "ToError", "not found")
+		return
+	}
+	hasAssert, hasInternal, other := false, false, ""
+	for _, ret := range core.Returns(fn) {
+		for _, lf := range valueLeaves(ret.Results[0], nil, 0) {
+			switch x := lf.V.(type) {
+			case *ssa.Extract:
+				if ta, ok := x.Tuple.(*ssa.TypeAssert); ok && x.Index == 0 && core.TypeName(ta.AssertedType) == "Error" && core.Strip(ta.X) == ssa.Value(fn.Params[0]) {
+					hasAssert = true
+				} else {
+					other = valDesc(x)
+				}
+			case *ssa.Alloc:
+				// InternalError's result when expanded: a fresh *Error
+				hasInternal = true
+			case *ssa.Call:
+				if c := x.Common().StaticCallee(); c != nil && c.Name() == "InternalError" {
+					hasInternal = true
+				} else {
+					other = "call:" + core.CalleeName(x)
+				}
+			default:
+				other = valDesc(lf.V)
+			}
+		}
+	}
+	r.Check(hasAssert && hasInternal && other == "", rule, "ToError", "identity-on-*Error-else-InternalError", p.Pos(fn.Pos()), "returns the argument itself when its dynamic type is *Error (plain type assertion), InternalError(err) otherwise", "ToError does not map by a plain type assertion on its argument: "+other)
 }
